@@ -337,6 +337,11 @@ def table(t, depth=1, nested=False):
         rows.append({"rules": [], "cells": row_cells(t, ncols, math, depth, short_ok=not nested),
                      "end": t.choice(ROW_ENDS)})
     tab["last_end"] = bool(t.int(0, 1))
+    if not nested and t.int(0, 9) == 9:
+        # a spacer row at the very end; a closing rule behind it can only show at the bottom of the
+        # last non-empty row (the output has no other row)
+        rows.append({"rules": [], "cells": [{"mc": None, "body": []} for _ in range(t.int(1, ncols))], "end": "\\\\"})
+        tab["last_end"] = True
     for i, r in enumerate(rows):
         # a rule is written only where it touches a non-empty row: in front of a
         # non-empty row, or directly after one (in front of the empty row that
